@@ -1,16 +1,31 @@
 #!/opt/veriftools/pyvenv/bin/python
-"""prints the markdown table of seeded changes (DESIGN.md A.6) from seeded/*/*/meta.json"""
+"""prints the markdown table of seeded changes (seeded/TABLE.md, referred to by DESIGN.md A.5) from seeded/*/*/meta.json"""
 import glob, json, os
 rows = []
+n = det0 = detnow = 0
 for f in sorted(glob.glob(os.path.join(os.path.dirname(__file__), '..', 'seeded', '*', '*', 'meta.json'))):
     m = json.load(open(f))
     pid, name = f.split(os.sep)[-3], f.split(os.sep)[-2]
     c = m.get('confirmed', {})
     k = m.get('check', {})
-    title = (m.get('title') or m.get('what_it_breaks') or '')[:110].replace('|', '/')
-    files = ', '.join(x.split('/')[-1] for x in m.get('files_touched', []))[:60]
+    title = (m.get('title') or m.get('what_it_breaks') or '')[:120].replace('|', '/')
+    files = ', '.join(x.split('/')[-1] for x in m.get('files_touched', []))[:50]
     ok = c.get('demo_on_clean_exit') == 0 and c.get('demo_on_mutant_exit') == 1 and '100%' in str(c.get('test_suite_tail', ''))
-    rows.append(f"| {pid} {name} | {title} | {files} | {'yes' if ok else 'NO: ' + json.dumps(c)[:80]} | {'detected (' + str(k.get('violations')) + ')' if k.get('detected') else 'MISSED'} |")
-print('| change | what it does | files | confirmed (demo clean/mutant, suite) | quick check |')
-print('|---|---|---|---|---|')
+    first = 'detected' if k.get('detected') else 'missed'
+    later = []
+    for key, r in sorted(m.items()):
+        if key.startswith('recheck') and isinstance(r, dict):
+            if not r.get('applied', True):
+                later.append(f"{r.get('check', pid)}: patch no longer applies")
+            else:
+                later.append(f"{r.get('check', pid)}: {'detected' if r.get('detected') else 'MISSED'} @{r.get('verif_commit')}")
+    note = m.get('note', '')
+    now = k.get('detected') if not later else any('detected' in x for x in later)
+    n += 1
+    det0 += bool(k.get('detected'))
+    detnow += bool(now)
+    rows.append(f"| {pid} {name} | {title} | {files} | {'yes' if ok else 'NO: ' + json.dumps(c)[:60]} | {first} | {'; '.join(later) or '-'} | {note} |")
+print(f'{n} seeded changes; caught by the quick check when first run: {det0}; caught now (latest recorded run): {detnow}\n')
+print('| change | what it does | files | confirmed (demo clean/mutant, suite) | first run of the quick check | later runs (after strengthening) | note |')
+print('|---|---|---|---|---|---|---|')
 print('\n'.join(rows))
